@@ -75,14 +75,14 @@ prop(
     "C03",
     contract_modules=["contracts.c03"],
     bcc="c03",
-    level="proof",
+    level="other",
     claimed=True,
     trusted=["numpy.array-model"],
     assumptions=['numpy view/copy semantics as in numpy.array-model', 'aliasing through *other* views of the same buffer is not tracked by the term model (bounded check covers np.shares_memory)'],
     explanation='inv_traj preservation + functional postconditions + aliasing clauses.',
     technique='contract-based deductive verification: symbolic execution of the real Python source against sidecar contracts, VCs to z3/cvc5 over a term algebra of traced arrays (value normal forms + buffer identities); bounded operation-sequence enumeration as labelled stand-in for what the array model abstracts',
     level_text='Trajectory class invariant (per-frame fields indexed alike, RMSD-trace cache either empty or the traces of the current coordinates) is proved established by __init__ and preserved by slice (int/slice/array keys, copy both ways), join, stack, atom_slice (both inplace values), the xyz setter, center_coordinates, superpose and in-place re-imaging, for symbolic frame counts: all finite operation sequences by induction. Field values equal the same numpy indexing/concatenation; result coordinate buffers are never shared; copy=True/join/atom_slice(inplace=False) share no buffer.',
-    level_note='Trusted: numpy view/copy model (numpy.array-model), deepcopy gives a fresh object, C kernels mutate only the coordinate buffer they are handed. `analysis functions leave input bit-identical` is bounded-only.',
+    level_note='Level other (not proof): the last clause of the property (analysis and save functions leave their inputs unmodified) is only bounded-checked. Trusted: numpy view/copy model (numpy.array-model), deepcopy gives a fresh object, C kernels mutate only the coordinate buffer they are handed. `analysis functions leave input bit-identical` is bounded-only.',
 )
 
 prop(
